@@ -53,7 +53,7 @@ class C19(CheckBase):
         return case_st()
 
     def examples(self, tier):
-        return 1500 if tier == "quick" else 40000
+        return 5000 if tier == "quick" else 60000
 
     def sample(self, case):
         c = dict(case)
